@@ -67,6 +67,10 @@ type Gate struct {
 	// free, deterministic functions of their arguments when not inlined.
 	Pure  map[string]bool
 	stack []*ssa.Function
+	// Subs lists the inlined activations of the evaluation (callee summaries
+	// with reach conditions and values in terms of the top-level function).
+	Subs     []*Summary
+	Top      *Summary // the activation of the function under evaluation
 	seq      int
 	Funcs    map[string]bool // functions evaluated (incl. inlined)
 }
@@ -137,6 +141,9 @@ func (g *Gate) eval(fn *ssa.Function, args []*E, bindings []*E, m *mem, base Ref
 	f := &frame{g: g, fn: fn, env: map[ssa.Value]*E{}, rc: map[*ssa.BasicBlock]Ref{}, mem: m, base: base,
 		back: map[[2]int]bool{}, heads: map[*ssa.BasicBlock]bool{}, tag: g.fresh("act")}
 	f.sum = &Summary{Fn: fn, RC: f.rc, Env: f.env}
+	if len(g.stack) == 1 {
+		g.Top = f.sum
+	}
 	for i, p := range fn.Params {
 		if i < len(args) && args[i] != nil {
 			f.env[p] = args[i]
@@ -377,6 +384,10 @@ func (f *frame) val(v ssa.Value) *E {
 
 func (f *frame) addEffect(e Effect) {
 	e.Fn = f.fn
+	if (e.Kind == "store" || e.Kind == "mapupdate") && e.Val != nil && e.Cond != True {
+		// the written value as it is on the paths that reach the write
+		e.Val = f.g.U.Under(e.Val, e.Cond)
+	}
 	f.sum.Effects = append(f.sum.Effects, e)
 }
 
@@ -530,6 +541,10 @@ func (f *frame) canInline(callee *ssa.Function) bool {
 	if len(g.stack) > g.MaxDepth {
 		return false
 	}
+	if g.P.IsNewHelper(callee) {
+		// a helper that is not part of the confirmed vocabulary is transparent
+		return true
+	}
 	if g.Inline != nil {
 		return g.Inline(f.fn, callee, len(g.stack))
 	}
@@ -623,6 +638,7 @@ func (f *frame) call(in ssa.Instruction, c *ssa.CallCommon, rc Ref, typ types.Ty
 	if f.canInline(callee) {
 		sub := f.g.eval(callee, args, bindings, f.mem, rc)
 		if sub != nil {
+			f.g.Subs = append(f.g.Subs, sub)
 			f.sum.Effects = append(f.sum.Effects, sub.Effects...)
 			f.sum.Panics = u.bdd.Or(f.sum.Panics, sub.Panics)
 			v := f.retValue(sub, rc, typ)
@@ -642,7 +658,10 @@ func (f *frame) call(in ssa.Instruction, c *ssa.CallCommon, rc Ref, typ types.Ty
 		}
 	}
 	name := calleeName(callee)
-	if IsPureLib(name) || f.g.Pure[FuncName(callee)] {
+	if IsPureLib(name) {
+		return u.LibCall(name, typ, args...)
+	}
+	if f.g.Pure[FuncName(callee)] {
 		return u.mk("call", name, typ, args...)
 	}
 	// impure / unknown: the result is unique to this call site
@@ -789,7 +808,7 @@ func (f *frame) instr(b *ssa.BasicBlock, in ssa.Instruction, rc Ref) {
 		if in.Max != nil {
 			mx = f.val(in.Max)
 		}
-		f.env[in] = u.mk("slice", "", in.Type(), f.val(in.X), lo, hi, mx)
+		f.env[in] = u.Slice(f.val(in.X), lo, hi, mx, in.Type())
 	case *ssa.Extract:
 		t := f.val(in.Tuple)
 		if t.Op == "tuple" {
@@ -1252,4 +1271,21 @@ func (u *U) Leaves(e *E) map[*E]Ref {
 	}
 	rec(e, True)
 	return out
+}
+
+// Under simplifies an expression on the paths described by care: a selection
+// whose condition is decided by care is replaced by the selected alternative.
+func (u *U) Under(e *E, care Ref) *E {
+	if e == nil || e.Op != "ite" || care == True {
+		return e
+	}
+	switch {
+	case care == False:
+		return e
+	case u.bdd.Implies(care, e.B):
+		return u.Under(e.Args[0], care)
+	case u.bdd.Implies(care, u.bdd.Not(e.B)):
+		return u.Under(e.Args[1], care)
+	}
+	return u.ITE(e.B, u.Under(e.Args[0], u.bdd.And(care, e.B)), u.Under(e.Args[1], u.bdd.And(care, u.bdd.Not(e.B))))
 }
